@@ -40,6 +40,11 @@ func (proof *Proof) Verify(key []byte, value []byte, root []byte) bool {
 	}
 	hash := leafHash
 	for _, branch := range proof.InnerNodes {
+		// an inner node has height >= 1; with height 0 the node would be hashed
+		// exactly like a leaf (LeafNode and InnerNode share one encoding)
+		if branch.Height < 1 {
+			return false
+		}
 		//hash = branch.ProofHash(hash)
 		hash = InnerNodeProofHash(hash, branch)
 	}
